@@ -23,8 +23,22 @@ Definition pdict (id : Z) (l : list (dkey * pval)) : pval := PDict id (s "builti
 
 (* D07  {False: 'x', True: 'y'} *)
 Definition w_bool_keys : pval := pdict 1 [(kbool false, pstr_ 2 "x"); (kbool true, pstr_ 3 "y")].
-(* D08  {1: 'a', '1': 'b'} *)
+(* D08 (repaired: the dump refuses)  {1: 'a', '1': 'b'} *)
 Definition w_colliding_keys : pval := pdict 1 [(kint 1, pstr_ 2 "a"); (kstr "1", pstr_ 3 "b")].
+(* further shapes of D08: {'1': 'a', 1: 'b'}, {1.5: 'a', '1.5': 'b'}, {True: 'a', 'true': 'b'}, a defaultdict, a dict
+   below a list and behind an entry that IS written first *)
+Definition w_colliding_more : list pval :=
+  [pdict 1 [(kstr "1", pstr_ 2 "a"); (kint 1, pstr_ 3 "b")];
+   pdict 1 [(kfloat "1.5", pstr_ 2 "a"); (kstr "1.5", pstr_ 3 "b")];
+   pdict 1 [(kbool true, pstr_ 2 "a"); (kstr "true", pstr_ 3 "b")];
+   PDefDict 1 (s "collections") (s "defaultdict") (PType 4 (s "builtins") (s "list")) [(kint 1, pstr_ 2 "a"); (kstr "1", pstr_ 3 "b")];
+   plist 9 [pint 7; pdict 1 [(kstr "k", PBytes 5 false (s "builtins") (s "bytes") (s "78")); (kint 1, pstr_ 2 "a"); (kstr "z", pint 3); (kstr "1", pstr_ 3 "b")]]].
+(* an earlier value's exception wins: {1: <unsupported>, '1': 'b'} raises UnsupportedTypeException, not ValueError;
+   a later value is not serialised: {1: 'a', '1': <unsupported>} raises ValueError *)
+Definition w_colliding_earlier_raises : pval := pdict 1 [(kint 1, PUnsup 2 (s "m") (s "C")); (kstr "1", pstr_ 3 "b")].
+Definition w_colliding_later_unsup : pval := pdict 1 [(kint 1, pstr_ 2 "a"); (kstr "1", PUnsup 3 (s "m") (s "C"))].
+(* a property value is skipped before its key is looked at: {1: property, '1': 'b'} has ONE kept key *)
+Definition w_colliding_skipped : pval := pdict 1 [(kint 1, PProp 2); (kstr "1", pstr_ 3 "b")].
 (* D09  frozenset({1}), deque([1, 2]) : __getstate__() is None, the items live elsewhere *)
 Definition w_frozenset : pval := PObj 1 (s "builtins") (s "frozenset") HKSet [pint 1] OKState (PScalar 5 SNone).
 Definition w_deque : pval := PObj 1 (s "collections") (s "deque") HKSeq [pint 1; pint 2] OKState (PScalar 5 SNone).
@@ -44,7 +58,7 @@ Definition w_defaultdict_subclass : pval :=
 Definition w_tuple_subclass : pval := PSeq QTuple 1 (s "values") (s "MyTuple") false [pint 1; pint 2].
 (* a str holding a high and a low surrogate as two code points *)
 Definition w_surrogates : pval := PScalar 1 (SStr [55357; 56832]%N).
-(* C12: {1: b'x', '1': b'y'}: both members are written, one reference survives json *)
+(* C12-F1 (repaired with D08: the dump refuses before the second member is written)  {1: b'x', '1': b'y'} *)
 Definition w_orphan_member : pval :=
   pdict 1 [(kint 1, PBytes 2 false (s "builtins") (s "bytes") (s "78")); (kstr "1", PBytes 3 false (s "builtins") (s "bytes") (s "79"))].
 
